@@ -312,7 +312,8 @@ def write_files(c, tmp):
     with open(nf, "w") as f:
         for t in range(c["T"]):
             f.write("id     cn     neighborlist\n")
-            for i, row in enumerate(c["nl"][t]):
+            for i in common.row_order(c["nl"][t], "n"):
+                row = c["nl"][t][i]
                 f.write(f"{i + 1}     {len(row)}     " + " ".join(str(j + 1) for j in row) + "\n")
     wf = ""
     if c["w"]:
@@ -320,7 +321,8 @@ def write_files(c, tmp):
         with open(wf, "w") as f:
             for t in range(c["T"]):
                 f.write("id     cn     weights\n")
-                for i, row in enumerate(c["w"][t]):
+                for i in common.row_order(c["w"][t], "w"):
+                    row = c["w"][t][i]
                     f.write(f"{i + 1}     {len(row)}     " + " ".join(row) + "\n")
     return nf, wf
 
